@@ -25,6 +25,10 @@ CHECKS = {
                 technique="TLA+ wrapper spec (Wrappers.tla: RoOutcomes as a function of the base transition relation) with TLC action properties RoNeverChangesBase/RoRefusesMutators; TLC-generated (base tree, wrapper history, call) transitions replayed through the real RoFS around real MemFS/OrefaFS bases with the BASE projected and its modification times digested around every call; TLC trace validation in wrapper mode",
                 text="WrapSpec builds every base tree reachable by <=2 (quick) / <=3 (thorough) elementary calls, wraps it, and issues every VFS method template (OpenFile with 10 flag sets, all mutators, all queries, Sub followed by a mutator through the result) and every File method on handles the wrapper returned, for up to 2 / 3 consecutive wrapper calls. TLC checks on the specification that the base projection never changes and every mutator is refused with a permission-class error, and emits each transition; the driver executes it through rofs.New(base) and compares result class, the complete projection of the base (tree, bytes, modes, owners) and a digest of every ModTime before and after. Non-conforming steps are judged by FsTrace in wrapper mode.",
                 note="Trusted: the projection and the mtime digest (Lstat ModTime of every path). Read-only calls are expected to return what the base returns including the base's own catalogued deviations."),
+    "C12": dict(cat="model_checking", design="DESIGN.md section 8 C12",
+                technique="TLA+ FailFS spec (Wrappers.tla: every wrapper call as a sequence of consulted primitives over the base transition relation, fault plan + counters as wrapper state) with TLC action properties; TLC enumerates (base tree, plan, wrapper history, call) transitions; replay through the real FailFS with a counting failure function; the logged consultation sequence must equal the specification's; TLC trace validation",
+                text="Wrappers.tla gives each FailFS method its sequence of consulted FnVFS primitives (composites Create/WriteFile/ReadFile/ReadDir/MkdirTemp/CreateTemp/Sub+mutator step by step, with the partial effects that have happened when an inner primitive fails) as a function of the base transition relation. TLC checks that an injected failure is returned (exactly for single-primitive calls, some error for composites), that the base never changes under ReadOnlyFunc, and emits every transition for: no plan (transparency: results and tree equal the base's), ReadOnlyFunc, and every plan 'the 1st/2nd consultation of F fails' for 30 primitives. The driver executes them through failfs.New(base) on MemFS and OrefaFS bases; result, base projection, mtime digest (read-only plan) and the exact list of primitives consulted during the call are compared; non-conforming steps go to FsTrace in wrapper mode.",
+                note="Trusted: the counting failure function of the driver. WalkDir and Glob through FailFS are covered by C14."),
     "C15": dict(cat="model_checking", design="DESIGN.md section 8 C15",
                 technique="TLA+ MemIdm spec: TLC exhaustive graph with invariants + edge replay on real MemIdm; TLC model of the two-critical-section AddUser (MemIdmConc: map invariant + linearizability over all interleavings); recorded concurrent executions judged by TLC (IdmLin)",
                 text="MemIdm.tla is shaped like the code (two map pairs, two counters, AddUser in two critical sections). TLC explores the complete reachable graph for a pool of 3 group and 3 user names with up to 3 (quick) / 4 (thorough) ids issued per kind, checking map agreement, id uniqueness, ids-never-reissued and admin-from-start, and emits every transition with the expected result and the complete lookup table; each is replayed on a real MemIdm and compared (all four lookups for every pool name and every id that can have been issued). Non-conforming steps are judged by TLC trace validation (IdmTrace). Concurrency: TLC checks MemIdmConc (2 and 3 processes, all call pairs/triples, three seeded initial states) for the map invariant in every interleaving and linearizability at termination; tens of thousands of free-running real executions with 2-4 goroutines are recorded and each distinct history is judged linearizable or not by TLC (IdmLin).",
